@@ -17,7 +17,7 @@ def run(ctx):
         plan = ("all:2,2,2:MC,MCSearch3,MCInterior4,MCConj3:0;all:3,2,2:MCSearch5:0;"
                 "rand:4,4,3:20:MC,MCSearch5,MCSearch5tiny,MCInterior4,MCSearchFilter3:0;blocky:8:3:MCC2F:0;sat:14:5:MCC2Fx0,MCC2Fx3,MCC2Fx6:0")
         plan2 = ("ms:all:3,3:MS,MSSearch3,MSConj3:0;ms:rand:6,5:30:MS,MSSearch5,MSSearch5tiny,MSSearchFilter3:0;ms:blocky:10:4:MSC2F:0")
-        pland = ("all:2,2,2:1/0/0/0,3/4/1/1;rand:4,2,6:20:1/0/0/0,2/4/0/1,8/5/1/0,3/8/0/0,1/0/0/0/-12,2/4/0/1/10,0/0/0/0/0/1,0/0/0/1/0/1")
+        pland = ("all:2,2,2:1/0/0/0,3/4/1/1;rand:4,2,6:20:1/0/0/0,2/4/0/1,8/5/1/0,3/8/0/0,1/0/0/0/-12,2/4/0/1/10,0/0/0/0/0/1,0/0/0/1/0/1;wedge:7,6,5:6:1/0/0/0,0/0/0/0/0/1,0/0/0/1/0/1,2/4/0/1")
     else:
         plan = ("all:2,2,2:MC,MCSearch3,MCSearch5,MCInterior4,MCConj3,MCSearchFilter3:0;all:3,2,2:MC,MCSearch5,MCInterior4:0;"
                 "rand:4,4,3:300:MC,MCSearch5,MCSearch5tiny,MCInterior4,MCSearchFilter3,MCConj3:0;rand:6,6,6:40:MCSearch3,MCInterior4:0;"
@@ -26,7 +26,7 @@ def run(ctx):
                  "ms:rand:8,7:300:MS,MSSearch5,MSSearch5tiny,MSSearchFilter3:0;ms:blocky:12:30:MSC2F:0")
         pland = ("all:2,2,2:1/0/0/0,3/4/1/1,2/0/0/1;all:3,2,2:1/0/0/0;"
                  "rand:4,2,6:150:1/0/0/0,2/4/0/1,8/5/1/0,3/8/0/0;rand:5,4,9:40:1/4/0/0,4/6/1/1,16/11/0/0;"
-                 "all:2,2,2:1/0/0/0/-12,1/0/1/0/20,0/0/0/0/0/1,0/0/0/1/0/1;rand:4,3,6:60:1/0/0/0/-12,2/4/0/1/10,3/5/1/0/-30,1/0/0/1/40")
+                 "all:2,2,2:1/0/0/0/-12,1/0/1/0/20,0/0/0/0/0/1,0/0/0/1/0/1;rand:4,3,6:60:1/0/0/0/-12,2/4/0/1/10,3/5/1/0/-30,1/0/0/1/40;wedge:9,8,6:30:1/0/0/0,0/0/0/0/0/1,0/0/0/1/0/1,2/4/0/1,3/5/1/0")
     lattice.lattice_stage(ctx, "mc3", plan, clauses)
     lattice.lattice_stage(ctx, "ms2", plan2, {"panic", "snap", "table", "verts", "search", "winding"}, cmd="c01-mesh2",
                           judge="lattice/Mesh2Judge", sitename="MarchingSquares")
